@@ -814,6 +814,30 @@ pub fn write_plain(rc: &Recipe, env: &Env) -> Result<Vec<Vec<u8>>, String> {
     Ok(bytes)
 }
 
+/// the same (symbolic) DWARF written directly through writers that know the symbol and section
+/// addresses
+pub fn write_resolving(rc: &Recipe, env: &Env) -> Result<Vec<Vec<u8>>, String> {
+    let (mut dwarf, frames, eh_frames) = build(rc, &|symbol, addend| Address::Symbol { symbol, addend });
+    let envrc = Rc::new(env.clone());
+    let mk = || Resolving { w: EndianVec::new(rc.e), env: envrc.clone() };
+    let mut sections = write::Sections::new(mk());
+    dwarf.write(&mut sections).map_err(|e| werr(&e))?;
+    let mut df = write::DebugFrame::from(mk());
+    frames.write_debug_frame(&mut df).map_err(|e| werr(&e))?;
+    let mut ef = write::EhFrame::from(mk());
+    eh_frames.write_eh_frame(&mut ef).map_err(|e| werr(&e))?;
+    let mut bytes = Vec::new();
+    for id in SECS {
+        let r: &Resolving = match id {
+            SectionId::DebugFrame => &df.0,
+            SectionId::EhFrame => &ef.0,
+            _ => sections.get(id).unwrap(),
+        };
+        bytes.push(r.w.slice().to_vec());
+    }
+    Ok(bytes)
+}
+
 fn slice_hex<R: Reader>(r: &R) -> String {
     match r.to_slice() {
         Ok(s) => hex(&s),
@@ -1206,7 +1230,19 @@ fn handle_rl_dwarf(a: &[&str]) -> Option<String> {
     let seed: u64 = a.get(4)?.parse().ok()?;
     let eh_enc: u8 = a.get(5)?.parse().ok()?;
     let rc = Recipe { e, version, format, address_size, seed, eh_enc, what: what.to_string() };
-    let envs: Vec<Env> = a[6..].iter().filter_map(|s| num_list(s)).map(|syms| Env { syms, secs: vec![] }).collect();
+    // an environment is `<symbol addresses>` or `<symbol addresses>/<section base addresses>`
+    let envs: Vec<Env> = a[6..]
+        .iter()
+        .filter_map(|s| {
+            let mut p = s.split('/');
+            let syms = num_list(p.next()?)?;
+            let secs = match p.next() {
+                Some(x) => num_list(x)?,
+                None => vec![],
+            };
+            Some(Env { syms, secs })
+        })
+        .collect();
     let mut cnt = Counts { items: 0, errors: 0 };
     // every oracle failure of the case; the one reported is the first of a class that is not a
     // recorded finding, else the first
@@ -1221,7 +1257,8 @@ fn handle_rl_dwarf(a: &[&str]) -> Option<String> {
     };
     for (k, env) in envs.iter().enumerate() {
         // ---- writing: recorded + applied == written plainly
-        let plain = write_plain(&rc, env);
+        // plain `EndianVec`s with constant addresses; with section base addresses the resolving writer
+        let plain = if env.secs.iter().all(|b| *b == 0) { write_plain(&rc, env) } else { write_resolving(&rc, env) };
         let mut applied: Vec<Vec<u8>> = Vec::new();
         let mut apply_err = None;
         for (i, b) in rec.bytes.iter().enumerate() {
@@ -1637,7 +1674,8 @@ pub fn gen(ctx: &Ctx, emit: &mut dyn FnMut(String)) {
                                 let max = if address_size == 4 { 0x7000_0000u64 } else { 0x7000_0000_0000 };
                                 let a: Vec<String> = (0..4).map(|i| (0x1000 + i * 0x10000 + rng.below(0x100) * 16).to_string()).collect();
                                 let b: Vec<String> = (0..4).map(|i| (0x1000 + rng.below(max / 8) * 4 + i).to_string()).collect();
-                                emit(format!("rl-dwarf {what} {e} {version} {format} {address_size} {seed} {enc} {} {}", a.join(","), b.join(",")));
+                                let c = if s % 2 == 0 { format!(" {}/{}", a.join(","), (0..11).map(|i| (0x40 * (i + 1) * rng.below(2)).to_string()).collect::<Vec<_>>().join(",")) } else { String::new() };
+                                emit(format!("rl-dwarf {what} {e} {version} {format} {address_size} {seed} {enc} {} {}{c}", a.join(","), b.join(",")));
                             }
                         }
                     }
